@@ -224,6 +224,8 @@ def run(chk, facts, tier, only=None):
         return cc, sorted(seen)
 
     def r2():
+        from shared import width_fn_key
+        absint.WIDTH_FN_KEY = width_fn_key(facts.crate("candid"))
         # precondition of the reviewed assumption on deserialize_seq / deserialize_map: the element count is bounded by a *checked*
         # multiplication before any fast path is armed
         de_rules.rule_bulk(chk, facts)
@@ -367,12 +369,14 @@ def run(chk, facts, tier, only=None):
         # parts from the right, because the label is arbitrary text of the expected type
         from shared import fmt_template
         h = c.method(r"de::Compound", "variant_seed", r"EnumAccess$")
+        from shared import with_local_callees
         tmpls = []
-        for x in walk(h["body"]):
-            if x.get("k") == "mcall" and x["m"] == "write_fmt":
-                tp = fmt_template(x)
-                if tp is not None:
-                    tmpls.append(tp)
+        for g, _via in with_local_callees(c, h):
+            for x in walk(g["body"]):
+                if x.get("k") == "mcall" and x["m"] == "write_fmt":
+                    tp = fmt_template(x)
+                    if tp is not None:
+                        tmpls.append(tp)
         lits = ["".join(v for kind, v in tp if kind == "lit") for tp in tmpls]
         chk.expect(len(lits) == 1 and lits[0].count(",") == 2 and tmpls[0][0] == ("lit", ","), "variant-tag:producer",
                    f"variant_seed must append exactly `,<label kind>,<accessor>` to the label; templates found: {lits}")
@@ -393,7 +397,7 @@ def run(chk, facts, tier, only=None):
         from facts import op_place, term_callee
         cc = facts.crate("candid")
         n_set = 0
-        MOVERS = re.compile(r"std::io::Seek::(seek|rewind|seek_relative)$|std::io::BufRead::consume$|cursor::Cursor::<T>::(get_mut|into_inner|set_position)$")
+        MOVERS = re.compile(r"io::Seek>?::(seek|rewind|seek_relative)$|io::BufRead>?::consume$|cursor::Cursor::<T>::(get_mut|into_inner|set_position)$")
         for k, b in sorted(cc.bodies.items()):
             if not b.span["file"].endswith("candid/src/de.rs"):
                 continue
@@ -439,8 +443,10 @@ def run(chk, facts, tier, only=None):
                 return out
 
             dom = None
-            for bi, t, cal in b.call_sites():
-                if b.is_cleanup(bi) or not cal or not MOVERS.search(cal):
+            for bi, t, cal0 in b.call_sites():
+                dd, rr = term_callee(t)
+                cal = next((x for x in (dd, rr) if x and MOVERS.search(x)), None)
+                if b.is_cleanup(bi) or not cal:
                     continue
                 fnn = short_fn(k)
                 if not cal.endswith("set_position"):
